@@ -88,7 +88,7 @@ func body(c *explore.Chooser) *explore.Case {
 	}
 	nextra := 4
 	if tier != "thorough" {
-		nextra = 2
+		nextra = 3
 	}
 	extra := c.Free(nextra, "extra-providers")
 	extraName := []string{"none", "second recording rule A in the other file", "alerting rule named A", "second alerting rule D in the other file"}[extra]
@@ -299,7 +299,7 @@ var tier string
 func main() {
 	explore.Main(&explore.Config{
 		Property: "C20", Level: "exploration",
-		Rule: "rule universe: recording provider A and alert D in file one, three consumers (two alerts, one recording rule) in files one/two whose expressions range over {no reference, sum(A), ALERTS{alertname=\"D\"}} (thorough adds A, ALERTS_FOR_STATE, both, a regexp alertname matcher, rate+absent), optionally a second provider A (thorough: also an alert named A / a second alert D) in the other file; x every non-empty subset of rules removed on the branch (files vanish when emptied) (thorough: x removal in one or two commits); real git repository, real finders, real rule/dependency check under the ci command; compared with the generator's reference dependency graph: warning iff dependants remain and no same-kind same-name replacement remains, and the listed dependants are exactly the dependants",
+		Rule: "rule universe: recording provider A and alert D in file one, three consumers (two alerts, one recording rule) in files one/two whose expressions range over {no reference, sum(A), ALERTS{alertname=\"D\"}} (thorough adds A, ALERTS_FOR_STATE, both, a regexp alertname matcher, rate+absent), optionally a second provider A or an alert named A (thorough: also a second alert D) in the other file; x every non-empty subset of rules removed on the branch (files vanish when emptied) (thorough: x removal in one or two commits); real git repository, real finders, real rule/dependency check under the ci command; compared with the generator's reference dependency graph: warning iff dependants remain and no same-kind same-name replacement remains, and the listed dependants are exactly the dependants",
 		Assumptions: []string{"alertname=~ selectors are a permissive cell: pint counts equality matchers only, the property speaks of selecting 'with its alertname'", "default configuration, offline"},
 		Spaces: []*explore.Space{{Name: "removals", Body: body, Bound: func(string) int { return -1 }, Setup: func(t string) {
 			tier = t
